@@ -68,7 +68,7 @@ def run_check(prop, tier, seed, replay):
                           found_input=False)
     except Exception as x:
         traceback.print_exc()
-        rep.violation(dict(kind="harness-error"), "check could not complete: %r" % (x,),
+        rep.violation(dict(kind="harness-error"), "check could not complete: %s" % (repr(x)[:300],),
                       dict(error=traceback.format_exc()), found_input=False)
     finally:
         C.cleanup_rundir(rundir)
